@@ -244,9 +244,12 @@ package nfa
 //@   requires wfST(st)
 //@   ensures result != nil ==> len(result) == st.activeSlots && base(result) == base(st.table) && off(result) == st.scratchOffset
 
-// PikeVM internals are out of reach (DESIGN 7.1): only the frame of SetLongest is stated (ASSUMED).
-//@ trusted func (*PikeVM).SetLongest
-//@   modifies p.*
+// the mode flag of a PikeVM (what its searches do with it is out of reach: DESIGN 7.1)
+//@ func (*PikeVM).SetLongest
+//@   props C10 C11 C07
+//@   requires p != nil
+//@   modifies p.internalState.Longest
+//@   ensures p.internalState.Longest == longest
 
 //@ uninterpreted spec func alwaysAnchored(n *NFA) bool
 //@ func (*NFA).IsAlwaysAnchored
@@ -369,7 +372,7 @@ package nfa
 //@ opaque spec func bdMatch(d *BranchDispatcher, h []byte, i int, n int) bool = 0 <= i && i < len(d.branchMatchers) && ite(len(d.branchMatchers[i].literal) > 0, len(d.branchMatchers[i].literal) <= len(h) && (forall k :: 0 <= k && k < len(d.branchMatchers[i].literal) ==> h[k] == d.branchMatchers[i].literal[k]) && ite(d.branchMatchers[i].hasNext, n == len(d.branchMatchers[i].literal) + 1 && n <= len(h) && d.branchMatchers[i].next[h[n-1]], n == len(d.branchMatchers[i].literal)), 1 <= n && n <= len(h) && (forall k :: 0 <= k && k < n ==> d.branchMatchers[i].charClass[h[k]]) && (n == len(h) || !d.branchMatchers[i].charClass[h[n]]))
 //@ spec func bdOK(d *BranchDispatcher) bool = d != nil && len(d.branchMatchers) <= 127 && !d.canMatchEmpty && (forall i :: 0 <= i && i < len(d.branchMatchers) ==> bmExact(d, i)) && (forall b :: 0 <= b && b <= 255 ==> -1 <= d.dispatch[b] && d.dispatch[b] < len(d.branchMatchers) && (d.dispatch[b] >= 0 ==> bmFirst(d, d.dispatch[b], b)) && (forall i :: 0 <= i && i < len(d.branchMatchers) && bmFirst(d, i, b) ==> d.dispatch[b] == i))
 //@ func (*BranchDispatcher).Search
-//@   props C19
+//@   props C19 C02
 //@   requires bdOK(d)
 //@   opt dead_returns=3
 //@   ensures result2 ==> result0 == 0 && len(haystack) > 0 && bdMatch(d, haystack, d.dispatch[haystack[0]], result1)
@@ -380,7 +383,7 @@ package nfa
 //@   loop 2: decreases rangelen - rangeindex
 
 //@ func (*BranchDispatcher).IsMatch
-//@   props C19
+//@   props C19 C01
 //@   requires bdOK(d)
 //@   opt dead_returns=3
 //@   ghost w = 0
@@ -416,7 +419,7 @@ package nfa
 // composite DFA: an unanchored search by restarting the anchored automaton must try every start position in order
 // (a failed attempt from s says nothing about the starts between s and the byte where it died)
 //@ func (*CompositeSequenceDFA).SearchAt
-//@   props C19
+//@   props C19 C02
 //@   opt safety=off
 //@   loop 1: ghost s0 = start
 //@   loop 1: lemma start == s0 + 1
